@@ -142,6 +142,9 @@ func (c *Conv) Node(a *ast.Node) (out *gen.Node) {
 		n := gen.NIndex(obj, c.list(e.Index)...)
 		if obj != nil {
 			n.P.Start = obj.P.Start
+		} else {
+			// the root-less form starts at its dot (what the tree reports as the node's start)
+			n.P.Start = c.pos("StartPos", "IndexExpr", a.StartPos())
 		}
 		for _, p := range e.LBracket {
 			n.P.Ls = append(n.P.Ls, c.pos("LBracket", "IndexExpr", p))
